@@ -266,6 +266,21 @@ impl DiskIO {
                 )));
             }
 
+            #[cfg(feature = "verif")]
+            if crate::verif::force_sync_io() {
+                return Ok(Self {
+                    ring: None,
+                    next_user_data: 0,
+                    write_indeterminate: AtomicBool::new(false),
+                    journal_generation: AtomicU64::new(0),
+                    journal_slot: AtomicUsize::new(ALLOCATION_JOURNAL_SLOTS - 1),
+                    file_identity,
+                    _file: file,
+                    fd,
+                    _use_direct_io: use_direct_io,
+                });
+            }
+
             // Create io_uring instance
             let ring: Option<IoUring> = IoUring::builder()
                 .setup_sqpoll(IOURING_SQPOLL_IDLE_MS)
@@ -440,6 +455,15 @@ impl DiskIO {
     pub fn write_sectors_sync(&self, sector: u64, data: &[u8]) -> Result<()> {
         self.ensure_writable()?;
         let offset = sector * FEOX_BLOCK_SIZE as u64;
+        #[cfg(all(feature = "verif", target_os = "linux"))]
+        let verif_fail_after = match crate::verif::io_write(self.verif_file_id(), offset, data, "sync")
+        {
+            crate::verif::IoDecision::Proceed => None,
+            crate::verif::IoDecision::FailBefore(errno) => {
+                return Err(FeoxError::IoError(io::Error::from_raw_os_error(errno)));
+            }
+            crate::verif::IoDecision::FailAfter(errno) => Some(errno),
+        };
 
         #[cfg(unix)]
         {
@@ -520,15 +544,38 @@ impl DiskIO {
             }
         }
 
+        #[cfg(all(feature = "verif", target_os = "linux"))]
+        if let Some(errno) = verif_fail_after {
+            return Err(FeoxError::IoError(io::Error::from_raw_os_error(errno)));
+        }
+
         Ok(())
     }
 
     pub fn flush(&self) -> Result<()> {
         self.ensure_writable()?;
+        #[cfg(all(feature = "verif", target_os = "linux"))]
+        let verif_fail_after = match crate::verif::io_fsync(self.verif_file_id()) {
+            crate::verif::IoDecision::Proceed => None,
+            crate::verif::IoDecision::FailBefore(errno) => {
+                crate::verif::io_fsync_done(self.verif_file_id(), false);
+                return Err(FeoxError::IoError(io::Error::from_raw_os_error(errno)));
+            }
+            crate::verif::IoDecision::FailAfter(errno) => Some(errno),
+        };
         #[cfg(unix)]
         unsafe {
             if libc::fsync(self.fd) == -1 {
+                #[cfg(all(feature = "verif", target_os = "linux"))]
+                crate::verif::io_fsync_done(self.verif_file_id(), false);
                 return Err(FeoxError::IoError(io::Error::last_os_error()));
+            }
+        }
+        #[cfg(all(feature = "verif", target_os = "linux"))]
+        {
+            crate::verif::io_fsync_done(self.verif_file_id(), true);
+            if let Some(errno) = verif_fail_after {
+                return Err(FeoxError::IoError(io::Error::from_raw_os_error(errno)));
             }
         }
 
@@ -705,6 +752,13 @@ impl DiskIO {
             let remaining = sectors - offset;
             scratch.set_len(size);
             fill_retirement_markers(scratch.as_mut_slice(), block_sector, remaining);
+            #[cfg(all(feature = "verif", target_os = "linux"))]
+            let _ = crate::verif::io_write(
+                self.verif_file_id(),
+                block_sector * FEOX_BLOCK_SIZE as u64,
+                scratch.as_slice(),
+                "direct",
+            );
 
             let written = unsafe {
                 libc::pwrite(
@@ -797,6 +851,13 @@ impl DiskIO {
                 for (i, (sector, _)) in chunk.iter().enumerate() {
                     let offset = sector * FEOX_BLOCK_SIZE as u64;
                     let buffer = buffers.get(i);
+                    #[cfg(feature = "verif")]
+                    let _ = crate::verif::io_write(
+                        (self.file_identity.device, self.file_identity.inode),
+                        offset,
+                        unsafe { std::slice::from_raw_parts(buffer.as_ptr(), buffer.len()) },
+                        "uring",
+                    );
                     let write_e = opcode::Write::new(
                         types::Fd(self.fd),
                         buffer.as_ptr(),
@@ -938,6 +999,19 @@ impl DiskIO {
         }
         self.flush()?;
         Ok(())
+    }
+}
+
+#[cfg(all(feature = "verif", target_os = "linux"))]
+impl DiskIO {
+    /// (st_dev, st_ino) of the device file, as reported to the verif monitor.
+    pub fn verif_file_id(&self) -> crate::verif::FileId {
+        (self.file_identity.device, self.file_identity.inode)
+    }
+
+    /// True when this handle writes through io_uring.
+    pub fn verif_uses_uring(&self) -> bool {
+        self.ring.is_some()
     }
 }
 
